@@ -211,14 +211,14 @@ impl Scenario for MhSupport {
 }
 
 // ---- HMC ---------------------------------------------------------------------------------------
-fn gen_support_target(g: &mut Gen) -> GTarget {
+pub fn gen_support_target(g: &mut Gen) -> GTarget {
     let kind = g.pick(&[GKind::HalfLineLog, GKind::Box, GKind::SqrtEdge, GKind::NanBeyond, GKind::Cliff]).clone();
     let d = g.usize(1, 4);
     let mut t = GTarget::new(kind, d);
     t.c = g.f64_in(0.6, 3.0);
     t
 }
-fn support_start(g: &mut Gen, t: &GTarget) -> Vec<f64> {
+pub fn support_start(g: &mut Gen, t: &GTarget) -> Vec<f64> {
     let near = g.bool(1, 3);
     let s: Vec<f64> = (0..t.d)
         .map(|_| match t.kind {
